@@ -9,7 +9,9 @@ Open Scope R_scope.
 Definition is0R (x : R) : bool := if Req_EM_T x 0 then true else false.
 Definition posR (x : R) : bool := if Rlt_dec 0 x then true else false.
 
-Definition ROps : Ops R := mkOps R Rplus Rminus Rmult Rdiv Ropp Q2R is0R posR ln.
+Definition ltR (x y : R) : bool := if Rlt_dec x y then true else false.
+
+Definition ROps : Ops R := mkOps R Rplus Rminus Rmult Rdiv Ropp Q2R is0R posR ltR ln.
 
 Section Pure.
   Variable Cn : phase -> R -> R.      (* heat capacity of each phase *)
